@@ -266,6 +266,35 @@ def ctor_constants(prog, cls):
     return out
 
 
+_CF_CACHE = {}
+
+
+def ctor_flags(prog, cls):
+    """{member path: 0/1} for the bool members (also inside member structs) that the constructor chain leaves at a constant:
+    the state of validity flags right after construction.  Used by the formula checks, which analyse the first evaluation
+    after construction; that later evaluations return the same is C10."""
+    key = (id(prog), cls)
+    if key in _CF_CACHE:
+        return _CF_CACHE[key]
+    out = {}
+    from . import terms
+    ctors = [f for f in prog.methods_of(cls) if f.get('ctor') and len(f.params) == 0]
+    if ctors and ctors[0].body is not None:
+        scalar = 'long double' if '<long double' in cls else 'double'
+        E = terms.Evaluator(prog, dyn_class=cls, scalar=scalar, opaque=('register_var', 'register_vec', 'init_var'))
+        try:
+            outs = E.run(ctors[0])
+        except Exception:
+            outs = []
+        bools = set(fld['n'] for r in prog.records.values() for fld in r.get('fields', []) if str(fld.get('t', '')).replace('const ', '') == 'bool')
+        if outs:
+            for m, v in outs[0].mem.items():
+                if v[0] == 'num' and v[1] in (0, 1) and m.split('.')[-1] in bools and all(o.mem.get(m) == v for o in outs):
+                    out[m] = v
+    _CF_CACHE[key] = out
+    return out
+
+
 _WM_CACHE = {}
 
 
